@@ -13,6 +13,7 @@ GENERATORS = {
     'track': ('gen_track', ['TrackTab.v']),
     'packets': ('gen_packets', ['Packets.v']),
     'text': ('gen_text', ['TextTab.v']),
+    'builder': ('gen_builder', ['BuilderTab.v']),
 }
 
 def write_if_changed(path, text):
